@@ -321,6 +321,31 @@ def directed():
         for j, recv in enumerate(RECVS[1:]):
             if j < 4 or (k + j) % 3 == 0:
                 yield dict(c, recv=recv)
+    for c in longrow_cases():
+        yield c
+    # negative column numbers carried by a narrow numpy integer type, on rows longer than that type can count (row length + column leaves the type)
+    lens = [3, 300, 40000, 130, 2]
+    for rs in (1, 2, 3, [1, 2], [3, 1, 2], slice(1, 4), np.array([2, 1])):
+        for col in (np.int8(-1), np.int8(-2), np.int8(-128), np.int16(-1), np.int16(-129), np.int16(-300), np.int32(-1), np.int32(-40000), np.int64(-7), np.uint8(129), np.uint16(299), np.int8(127), np.int16(299)):
+            yield mk_case(lens, rs, col, True)
+
+
+LONGROW_SHAPES = ([6001, 0, 5003, 7002], [2 ** 20 + 5, 2 ** 20 + 76], [3, 1600001, 2])
+LONGROW_COLS = (slice(None, None, -1), slice(-2, None, -2), slice(None, None, -3), slice(1, None, 2), slice(5, -5, 3), slice(None, 4, -2))
+
+
+def longrow_cases():
+    """a few rows of thousands / millions of cells (average row length beyond 2**20), read with every kind of column slice -- also the negative-step ones
+    that reach the first cells of the buffer -- through all rows, a row list and a single row; the mid-size shape also on unmaterialised receivers"""
+    for lens in LONGROW_SHAPES:
+        n = len(lens)
+        for ci, cs in enumerate(LONGROW_COLS):
+            for ri, rs in enumerate((slice(None), [n - 1, 0], 0, Ellipsis)):
+                if max(lens) > 100000 and (ci + ri) % 2:
+                    continue
+                yield mk_case(lens, rs, cs, True)
+                if max(lens) < 100000 and (ci + ri) % 2 == 0:
+                    yield mk_case(lens, rs, cs, True, ("lazyrows", "lazycols+2", "lazychain", "ufunc")[(ci + ri) % 4])
 
 
 def _directed():
